@@ -78,6 +78,17 @@ CLAIMED = {
          'negative axes (C19/F4) not generated. No axioms.',
     technique='Coq proof (loop/scan simulation, non-interference of the taint analysis) + per-run correspondence by vm_compute + loop oracle on the real code',
     ref='DESIGN.md section 5, C06'),
+  'C07': dict(
+    text='PARTIAL. A Gallina model of what nn.vjp / nn.jvp / nn.grad / nn.value_and_grad return for a module computing a polynomial in its scalar variables and inputs (jax autodiff idealised as '
+         'the symbolic derivative). Proved for every polynomial, values, filter, cotangent and tangents: exactly the variables of the collections selected by vjp_variables receive a cotangent '
+         '(others contribute nothing and do not appear), each cotangent is ct times the partial derivative and `partial` is the derivative, vjp and jvp are adjoint, forward-pass updates are '
+         'applied exactly once. Tied to /repo per run: random polynomial modules (params / batch_stats / cache / counter, 1-3 inputs) under nn.vjp (filters incl. lists and DenyList, has_aux), '
+         'nn.jvp (variable_tangents), nn.grad, nn.value_and_grad, nn.custom_vjp; primal, cotangents / tangents, aux and variables afterwards compared in Coq and with jax.vjp / jvp / grad of the '
+         'pure function (variables, inputs) -> module.apply on the real code.',
+    note='Trusted: Coq kernel, vm_compute, harness, jaxcompat, jax.vjp / jvp / grad. Scalars only (no pytree-shaped primals, reduce_axes unused). custom_vjp: forward value and the effect of the '
+         'user rule (observed by differentiating through it with the non-selected collections held constant) are correspondence-only. No axioms.',
+    technique='Coq proof (routing by filter, polynomial derivative and adjointness by ring) + per-run correspondence by vm_compute + jax autodiff oracle on the pure apply function',
+    ref='DESIGN.md section 5, C07'),
   'C08': dict(
     text='PARTIAL. A Gallina model of the state bookkeeping of nnx.vmap / nnx.scan / nnx.grad at the level of the argument\'s Variables: StateAxes.map_prefix (first matching filter), per-index '
          'views of axis groups, shared None groups with jax.vmap\'s batchedness tracked by dependency, scan with per-step slices, threaded Carry state and broadcast state re-read from the '
